@@ -1,5 +1,5 @@
 /-
-Helper lemmas for `get_element_probing_POVM('eq9', dim)` (C18): row orthonormality of the four bases for every even `dim ≥ 4`.
+Helper lemmas for `get_element_probing_POVM('eq9', dim)` (C18): row orthonormality and completeness (column orthonormality) of the four bases for every even `dim ≥ 4`.
 -/
 import NumqiProofs.ScalarInstances
 import NumqiModel.Catalogue
@@ -101,5 +101,106 @@ theorem eprobe9RowsOK_all (b dim : ℕ) (hd : 4 ≤ dim) (he : dim % 2 = 0) : ep
   have h := foldl_add_range (fun c => conj (eprobe9 b dim i c) * eprobe9 b dim j c) dim
   rw [h]
   exact eprobe9_row_inner b dim i j hd he hi hj
+
+/-! ### columns: rows `2k, 2k+1` contribute `2·[c = c' ∈ {P_k, Q_k}]`, and the pairs `{P_k, Q_k}` partition the columns -/
+
+theorem sum_range_two_mul (f : ℕ → GInt) (m : ℕ) :
+    ∑ i ∈ Finset.range (2 * m), f i = ∑ k ∈ Finset.range m, (f (2 * k) + f (2 * k + 1)) := by
+  induction m with
+  | zero => simp
+  | succ m ih =>
+    rw [show 2 * (m + 1) = 2 * m + 1 + 1 by ring, Finset.sum_range_succ, Finset.sum_range_succ, ih, Finset.sum_range_succ]
+    abel
+
+/-- pair supports -/
+def e9P (b k : ℕ) : ℕ := if b % 2 = 0 then 2 * k else 2 * k + 1
+def e9Q (b dim k : ℕ) : ℕ := if b % 2 = 0 then 2 * k + 1 else (if 2 * k + 2 = dim then 0 else 2 * k + 2)
+def e9u (b : ℕ) : GInt := if b < 2 then ⟨1, 0⟩ else ⟨0, 1⟩
+
+theorem eprobe9_even (b dim k c : ℕ) (hk : 2 * k + 2 ≤ dim) :
+    eprobe9 b dim (2 * k) c = if c = e9Q b dim k then e9u b else if c = e9P b k then 1 else 0 := by
+  rw [eprobe9_eq]
+  have h1 : e9q b dim (2 * k) = e9Q b dim k := by
+    unfold e9q e9Q
+    have : 2 * k / 2 * 2 = 2 * k := by omega
+    rw [this]
+    split_ifs with h0 h1
+    · rfl
+    · rw [h1, Nat.mod_self]
+    · exact Nat.mod_eq_of_lt (by omega)
+  have h2 : e9p b (2 * k) = e9P b k := by
+    unfold e9p e9P
+    have : 2 * k / 2 * 2 = 2 * k := by omega
+    rw [this]
+  have h3 : e9v b (2 * k) = e9u b := by
+    unfold e9v e9u
+    rw [if_pos (by omega)]
+  rw [h1, h2, h3]
+
+theorem eprobe9_odd (b dim k c : ℕ) (hk : 2 * k + 2 ≤ dim) :
+    eprobe9 b dim (2 * k + 1) c = if c = e9Q b dim k then -e9u b else if c = e9P b k then 1 else 0 := by
+  rw [eprobe9_eq]
+  have h1 : e9q b dim (2 * k + 1) = e9Q b dim k := by
+    unfold e9q e9Q
+    have : (2 * k + 1) / 2 * 2 = 2 * k := by omega
+    rw [this]
+    split_ifs with h0 h1
+    · rfl
+    · rw [h1, Nat.mod_self]
+    · exact Nat.mod_eq_of_lt (by omega)
+  have h2 : e9p b (2 * k + 1) = e9P b k := by
+    unfold e9p e9P
+    have : (2 * k + 1) / 2 * 2 = 2 * k := by omega
+    rw [this]
+  have h3 : e9v b (2 * k + 1) = -e9u b := by
+    unfold e9v e9u
+    rw [if_neg (by omega)]
+  rw [h1, h2, h3]
+
+theorem e9PQ_ne (b dim k : ℕ) : e9P b k ≠ e9Q b dim k := by
+  unfold e9P e9Q; split_ifs <;> omega
+
+theorem e9_pair (b dim k c c' : ℕ) (hk : 2 * k + 2 ≤ dim) :
+    eprobe9 b dim (2 * k) c * conj (eprobe9 b dim (2 * k) c') + eprobe9 b dim (2 * k + 1) c * conj (eprobe9 b dim (2 * k + 1) c')
+      = if (c = e9P b k ∨ c = e9Q b dim k) ∧ c = c' then ⟨2, 0⟩ else 0 := by
+  rw [eprobe9_even b dim k c hk, eprobe9_even b dim k c' hk, eprobe9_odd b dim k c hk, eprobe9_odd b dim k c' hk]
+  have hne := e9PQ_ne b dim k
+  have hu : e9u b = ⟨1, 0⟩ ∨ e9u b = ⟨0, 1⟩ := by unfold e9u; split_ifs <;> simp
+  by_cases h1 : c = e9Q b dim k <;> by_cases h2 : c' = e9Q b dim k <;> by_cases h3 : c = e9P b k <;> by_cases h4 : c' = e9P b k <;>
+    (try (exfalso; omega)) <;>
+    (rcases hu with hu | hu <;> simp only [h1, h2, h3, h4, hu, if_true, if_false, hne, hne.symm, or_true, or_false, true_and, and_true, and_false, false_and] <;>
+      first | decide | (split_ifs <;> first | decide | (exfalso; omega)))
+
+
+theorem eprobe9_col_inner (b dim c c' : ℕ) (hd : 4 ≤ dim) (he : dim % 2 = 0) (hc : c < dim) (hc' : c' < dim) :
+    ∑ i ∈ Finset.range dim, eprobe9 b dim i c * conj (eprobe9 b dim i c') = if c = c' then ⟨2, 0⟩ else 0 := by
+  obtain ⟨m, rfl⟩ : ∃ m, dim = 2 * m := ⟨dim / 2, by omega⟩
+  rw [sum_range_two_mul]
+  rw [Finset.sum_congr rfl (fun k hk => e9_pair b (2 * m) k c c' (by have := Finset.mem_range.1 hk; omega))]
+  by_cases hcc : c = c'
+  · subst hcc
+    rw [if_pos rfl]
+    set k0 : ℕ := if b % 2 = 0 then c / 2 else (if c = 0 then m - 1 else (c - 1) / 2) with hk0
+    rw [Finset.sum_eq_single k0]
+    · rw [if_pos]
+      refine ⟨?_, rfl⟩
+      rw [hk0]; unfold e9P e9Q; split_ifs <;> omega
+    · intro k hk hne
+      have hk' := Finset.mem_range.1 hk
+      rw [if_neg]
+      rintro ⟨h, -⟩
+      rw [hk0] at hne
+      revert h hne; unfold e9P e9Q; split_ifs <;> omega
+    · intro h
+      exfalso; apply h; rw [Finset.mem_range, hk0]; split_ifs <;> omega
+  · rw [if_neg hcc]
+    exact Finset.sum_eq_zero (fun k _ => if_neg (fun h => hcc h.2))
+
+theorem eprobe9ColsOK_all (b dim : ℕ) (hd : 4 ≤ dim) (he : dim % 2 = 0) : eprobe9ColsOK b dim = true := by
+  simp only [eprobe9ColsOK, List.all_eq_true, List.mem_range, beq_iff_eq]
+  intro c hc c' hc'
+  have h := foldl_add_range (fun i => eprobe9 b dim i c * conj (eprobe9 b dim i c')) dim
+  rw [h]
+  exact eprobe9_col_inner b dim c c' hd he hc hc'
 
 end Numqi.Catalogue
